@@ -92,7 +92,10 @@ def c20_case(draw):
                 copies=draw(st.sampled_from([0, 0, 2, 3])),
                 tricky_names=draw(st.sampled_from([False, False, True])),
                 player_order=draw(st.sampled_from([0, 0, 1, 2, 3, 4])),
-                cap=draw(st.booleans()), scaled=draw(st.booleans()))
+                cap=draw(st.booleans()), scaled=draw(st.booleans()),
+                eol=draw(st.sampled_from(['as_rendered', 'as_rendered',
+                                          'no_trailing_newline',
+                                          'one_trailing_newline', 'crlf'])))
 
 
 def budget(tier):
@@ -225,6 +228,17 @@ def check(case, stats):
             sep, render_sites.THOUSANDS = render_sites.THOUSANDS, False
         if sep and ',' in log.replace(', ', ''):
             stats.count('class:thousands_separator')
+        # how the file ends and which line ends it uses is not part of the
+        # hand: the last hand of a file has no blank lines after it, Windows
+        # files use CRLF
+        eol = case.get('eol') or 'as_rendered'
+        if eol == 'no_trailing_newline':
+            log = log.rstrip('\n')
+        elif eol == 'one_trailing_newline':
+            log = log.rstrip('\n') + '\n'
+        elif eol == 'crlf':
+            log = log.replace('\n', '\r\n')
+        stats.count('eol:' + eol)
         stats.count('site:' + site)
         try:
             hhs = list(importer(log, error_status=True))
